@@ -25,6 +25,8 @@ func relFilters(a, r int) []FSpec {
 		FAll("All()"),                                     // 5
 		FAll("All(A)", a),                                 // 6
 		FRelOf(FAll("All(R,A)", r, a)),                    // 7
+		// index >= 8: not usable in batch/registration operations. A relation filter that does not require the relation component.
+		func() FSpec { f := FRelOf(FAll("All(A)", a)); f.SelfOnly = true; return f }(), // 8
 	}
 }
 
@@ -208,6 +210,16 @@ func RichRelCfg(id string, extra int, registered bool, feat uint32, oracles uint
 	}
 	if registered {
 		c.Prologue = append(c.Prologue, wx.Op{K: OpRegister, A: encodeRef(0, -1, false)})
+	}
+	return c
+}
+
+// RichEmptiedCfg is RichRelCfg after all four children were removed again: two alive targets that own empty tables in
+// two relation nodes each.
+func RichEmptiedCfg(id string, extra int, registered bool, feat uint32, oracles uint32) *Cfg {
+	c := RichRelCfg(id, extra, registered, feat, oracles)
+	for s := int8(2); s < 6; s++ {
+		c.Prologue = append(c.Prologue, wx.Op{K: OpRemoveEntity, A: s})
 	}
 	return c
 }
